@@ -39,6 +39,21 @@ def canon_numeral(txt):
     return ip + ("." + fp if fp else "")
 
 
+def structured_corpus():
+    """every prefix chain x operand kind x context: the places where one construct decides what its neighbour
+    becomes (a group after `field:` is a field group — only directly after it; what a prefix / boost applies to)"""
+    chains = ["", "-", "+", "NOT ", "-+", "NOT -", "+NOT ", "- ", "NOT NOT "]
+    operands = ["a", "(a b)", "(a)", '"p q"', "[a TO b]", "/r/", "(a OR b)^2", "a~2", '"p q"~3', "(a (b c))",
+                "(-a)", "((a))", "<=3", "TO", "&&", "||", "!"]
+    contexts = ["%s", "f:%s", "x AND %s", "f:(%s)", "f:%s c", "%s^3", "f:%s OR g:%s", "x %s y", "(%s)", "f:( %s )"]
+    out = []
+    for c in contexts:
+        for ch in chains:
+            for o in operands:
+                out.append(c.replace("%s", ch + o))
+    return out
+
+
 class QGen:
     """grammar-directed generator: returns a list of lexemes (tokens); layout is added separately"""
 
